@@ -178,6 +178,12 @@ impl Writer {
                         self.outstring.push_str(tag);
                         self.outstring.push_str(&item_text);
                         if is_block {
+                            // if the content of the block ends with a line comment, then /end must be on a new line
+                            let end_offset = if end_offset == 0 && ends_with_line_comment(&item_text) {
+                                1
+                            } else {
+                                end_offset
+                            };
                             self.add_whitespace(end_offset);
                             self.outstring.push_str("/end ");
                             self.outstring.push_str(tag);
@@ -274,6 +280,25 @@ impl TaggedItemInfo<'_> {
             TaggedItemInfo::Comment { .. } => None, // no position restriction for comments
         }
     }
+}
+
+// does the last line of the text end with a line comment? Anything appended to that line would become part of the comment
+fn ends_with_line_comment(text: &str) -> bool {
+    let last_line = text.rsplit('\n').next().unwrap_or("");
+    let bytes = last_line.as_bytes();
+    let mut in_string = false;
+    let mut idx = 0;
+    while idx < bytes.len() {
+        match bytes[idx] {
+            // skip the escaped character
+            b'\\' if in_string => idx += 1,
+            b'"' => in_string = !in_string,
+            b'/' if !in_string && bytes.get(idx + 1) == Some(&b'/') => return true,
+            _ => {}
+        }
+        idx += 1;
+    }
+    false
 }
 
 fn apply_position_restrictions(group: &mut [TaggedItemInfo]) {
